@@ -370,6 +370,33 @@ func Run(t *testing.T, cs Case, opts bubble.StackOpts, hello []byte, oracle func
 			synctest.Wait()
 			cl.Write(h2wire.Ping(false, [8]byte{9, 9, 9}))
 			synctest.Wait()
+		case "h1-upgrade":
+			// a protocol upgrade: the backend accepts it (101), the connection becomes a tunnel (net/http hands it over to
+			// the reverse proxy: it ends "hijacked", not "closed"), one message each way, then the client leaves.
+			// K: 0 the client closes, 1 the backend side closes first, 2 the backend declines with 200
+			var tunnel *bubble.EchoTunnel
+			st.Backend.Respond = func(r *bubble.RecReq) *bubble.Resp {
+				if r.Header.Get("Upgrade") == "" || cs.K == 2 {
+					return &bubble.Resp{Status: 200, Body: []byte("plain")}
+				}
+				tunnel = bubble.NewEchoTunnel()
+				return &bubble.Resp{Status: 101, Header: http.Header{"Upgrade": {r.Header.Get("Upgrade")}, "Connection": {"Upgrade"}}, Tunnel: tunnel}
+			}
+			cl = st.Connect("victim", nil, HelloH1)
+			synctest.Wait()
+			cl.Write([]byte("GET /ws HTTP/1.1\r\nHost: localhost\r\nConnection: Upgrade\r\nUpgrade: websocket\r\n\r\n"))
+			synctest.Wait()
+			cl.Write([]byte("hello\n"))
+			synctest.Wait()
+			if cs.K == 1 && tunnel != nil {
+				tunnel.Close()
+				synctest.Wait()
+			}
+			cl.Close()
+			synctest.Wait()
+			if tunnel != nil {
+				tunnel.Close()
+			}
 		case "h2-rare":
 			// one rare but legal (or cleanly refusable) HTTP/2 sequence on a connection, then a plain request and a PING
 			cl = st.Connect("victim", nil, HelloH2)
